@@ -393,6 +393,55 @@ int main(int argc, char **argv) {
             };
             plan.stages.push_back(st);
         }
+        {
+            // 16- and 32-bit units above 0xFF whose low byte (low half) is one of the five special characters: the escaper and
+            // every printing position must treat them as ordinary text
+            static std::vector<Text> wide16, wide32;
+            wide16.clear();
+            wide32.clear();
+            auto build = [](std::vector<Text> &out, const std::vector<char32_t> &units) {
+                out.push_back(Text());
+                size_t start = 0;
+                for (int l = 1; l <= 3; l++) {
+                    const size_t end = out.size();
+                    for (size_t i = start; i < end; i++) {
+                        for (char32_t u : units) {
+                            out.push_back(out[i] + Text(1, u));
+                        }
+                    }
+                    start = end;
+                }
+            };
+            build(wide16, {0x126, 0x13C, 0x13E, 0x122, 0x127, U'&', U'a', U';', 0x43C, 0x4E26});
+            build(wide32, {0x126, 0x1003C, 0x1F33E, 0x10022, 0x100027, U'&', U'a', U';', 0x10026});
+            vx::Stage st;
+            st.name   = "wide-units";
+            st.chunks = 16;
+            st.fn     = [](int64_t chunk, vx::Ctx &ctx) {
+                static Rig<char16_t> r16;
+                static Rig<char32_t> r32;
+                for (size_t i = (size_t)chunk; i < wide16.size() + wide32.size(); i += 16) {
+                    if (!ctx.next()) {
+                        continue;
+                    }
+                    const bool  is16 = i < wide16.size();
+                    const Text &t    = is16 ? wide16[i] : wide32[i - wide16.size()];
+                    if (ctx.want_desc()) {
+                        ctx.describe(std::string(is16 ? "char16_t " : "char32_t ") + show(t));
+                    }
+                    ctx.acc.count("states");
+                    if (is16) {
+                        direct<char16_t>(t, r16, ctx);
+                        positions<char16_t>(t, ctx);
+                    } else {
+                        direct<char32_t>(t, r32, ctx);
+                        positions<char32_t>(t, ctx);
+                        positions<wchar_t>(t, ctx);
+                    }
+                }
+            };
+            plan.stages.push_back(st);
+        }
         plan.assumptions = {"the echoed source of an unresolved tag is checked for names without '[' and ']' (those change how the name is resolved)"};
         return plan;
     });
